@@ -26,6 +26,61 @@ Proof. exact C20_walk_dfs. Qed.
 Theorem C20_option_off : forall k, hidden false k = false.
 Proof. reflexivity. Qed.
 
+(* ---- the Docker and Mercurial matchers ----
+   model/Ignore.v mirrors src/ignore/docker.rs and hg.rs function by function and produces the regular-expression
+   TEXT the Rust code hands to Regex::new (compared textually with the real filters on every run); the text is
+   read by the verified parser/matcher of lib/RegexParse.v, lib/Regex.v.  spec/IgnoreSpec.v is the tools' rule
+   written without regular expressions (direct recursive glob matcher over tokens: `*`, `?` inside a segment,
+   `**/` any number of directories, last matching line wins with `!`, a pattern also covers everything below a
+   directory it matches; Mercurial globs are unrooted and end at a segment boundary). *)
+From Coq Require Import String.
+From FS Require Import lib.Regex lib.RegexParse spec.IgnoreSpec model.Ignore proofs.IgnoreProofs.
+
+(* a whole .dockerignore file: for every directory, every list of lines (comments, blanks, negations, any
+   well-formed patterns) and every path below the directory, the model of matches_dockerignore_filter gives the
+   verdict of Docker's rule *)
+Theorem C20_docker_file : forall dir lines rel,
+  (forall line, In line lines -> line_skipped line = false -> docker_wf line = true) ->
+  nonl rel = true -> path_clean (dir ++ [47] ++ rel) = true ->
+  matches_dockerignore_filter (parse_dockerignore dir lines) (dir ++ [47] ++ rel) = Some (docker_ignored_ref lines rel).
+Proof. exact docker_file_correct. Qed.
+
+(* a whole .hgignore file of `syntax: glob` sections *)
+Theorem C20_hg_glob_file : forall dir lines rel v,
+  (forall l, In l lines -> line_skipped l = false -> no_backslash l = true) -> nonl rel = true ->
+  hg_ignored_ref lines rel = Some v ->
+  exists fs, parse_hgignore dir lines = HgFilters fs /\ matches_hgignore_filter fs (dir ++ [47] ++ rel) = Some v.
+Proof. exact hg_file_correct. Qed.
+
+(* `syntax: regexp` lines: an unrooted expression matches anywhere in the path relative to the repository,
+   a rooted one (`^`) at its start *)
+Theorem C20_hg_regexp_unrooted : forall dir r b rel,
+  starts_with [94] r = false -> plain_parse r = Some (b, false, false) ->
+  exists v, is_match (convert_hgignore_regexp dir r) (dir ++ [47] ++ rel) = Some v /\
+            (v = true <-> exists u m t, rel = u ++ m ++ t /\ nonl u = true /\ lang b m).
+Proof. exact hg_regexp_unrooted. Qed.
+Theorem C20_hg_regexp_rooted : forall dir line b ta rel,
+  starts_with [94] line = true -> plain_parse (trim_start_matches is_caret line) = Some (b, false, ta) ->
+  exists v, is_match (convert_hgignore_regexp dir line) (dir ++ [47] ++ rel) = Some v /\
+            (v = true <-> exists m t, rel = m ++ t /\ lang b m).
+Proof. exact hg_regexp_rooted. Qed.
+
+(* the directory path is a literal inside the expression, whatever characters it contains *)
+Theorem C20_directory_path_is_literal : forall x,
+  exists b, parse_regex (regex_escape x) = Some (mkrx false false b) /\ forall w, lang b w <-> w = x.
+Proof. exact escape_literal. Qed.
+
+(* non-vacuity: the hypotheses hold for ordinary lines *)
+Example C20_wf_examples :
+  forallb docker_wf [s "*.log"; s "!keep.log"; s "/docs/build"; s "**/tmp1"; s "src/**/*.bin"; s " secret.txt "; s "dir/"]%string = true /\
+  forallb no_backslash [s "*.log"; s "tmp?"; s "**/name"; s "a+b"; s "build/"]%string = true.
+Proof. vm_compute. split; reflexivity. Qed.
+
 Print Assumptions C20_pruning_spec.
 Print Assumptions C20_pruning_walk.
 Print Assumptions C20_option_off.
+Print Assumptions C20_docker_file.
+Print Assumptions C20_hg_glob_file.
+Print Assumptions C20_hg_regexp_unrooted.
+Print Assumptions C20_hg_regexp_rooted.
+Print Assumptions C20_directory_path_is_literal.
